@@ -32,6 +32,9 @@ pub struct EdgeCall {
     pub from: usize,
     pub to: usize,
     pub kind: EdgeKind,
+    /// 0 = a single `add_*_edge` call; consecutive calls with the same non-zero value
+    /// (and kind) are one `add_*_edges([..])` batch call of 2 or 3 edges
+    pub batch: u32,
 }
 
 #[derive(Clone, Debug, PartialEq, Eq, Default)]
@@ -465,7 +468,7 @@ impl GraphSpec {
             })).collect::<Vec<_>>(),
             "builder_calls": self.calls.iter().map(|c| json!({
                 "call": match c.kind { EdgeKind::Logic => "add_logic_edge", EdgeKind::Contains => "add_contains_edge" },
-                "from": c.from, "to": c.to
+                "from": c.from, "to": c.to, "batch": c.batch
             })).collect::<Vec<_>>(),
         })
     }
@@ -491,6 +494,7 @@ impl GraphSpec {
                 from: c.get("from")?.as_u64()? as usize,
                 to: c.get("to")?.as_u64()? as usize,
                 kind,
+                batch: c.get("batch").and_then(|b| b.as_u64()).unwrap_or(0) as u32,
             });
         }
         Some(g)
